@@ -134,6 +134,37 @@ func (e *Engine) lookupType(pkgPath, name string) types.Type {
 	return found
 }
 
+// implementers: named repo types (T or *T) whose method set satisfies the interface.
+func (e *Engine) implementers(it types.Type) []types.Type {
+	iface, ok := it.Underlying().(*types.Interface)
+	if !ok {
+		return nil
+	}
+	var out []types.Type
+	packages.Visit(e.pkgs, nil, func(p *packages.Package) {
+		if p.Types == nil || !strings.HasPrefix(p.PkgPath, repoMod) {
+			return
+		}
+		sc := p.Types.Scope()
+		for _, n := range sc.Names() {
+			tn, ok := sc.Lookup(n).(*types.TypeName)
+			if !ok || tn.IsAlias() {
+				continue
+			}
+			if _, isI := tn.Type().Underlying().(*types.Interface); isI {
+				continue
+			}
+			if types.Implements(tn.Type(), iface) {
+				out = append(out, tn.Type())
+			} else if types.Implements(types.NewPointer(tn.Type()), iface) {
+				out = append(out, types.NewPointer(tn.Type()))
+			}
+		}
+	})
+	sort.Slice(out, func(i, j int) bool { return types.TypeString(out[i], nil) < types.TypeString(out[j], nil) })
+	return out
+}
+
 func (e *Engine) pkgByName(name string) *types.Package {
 	var found *types.Package
 	packages.Visit(e.pkgs, nil, func(p *packages.Package) {
